@@ -430,3 +430,81 @@ def self_check():
 
 if __name__ == '__main__':
     print('doc examples re-derived:', self_check())
+
+
+# ---------------------------------------------------------------- abstract (schema-symbolic) layout, "Layer A"
+
+def rup_sym(x, a):
+    """round x up to a multiple of a (a is a concrete power of two on every path)"""
+    r = x % a
+    if r == 0:
+        return x
+    return x + (a - r)
+
+
+def abstract_items(members):
+    """members: list of dict(form, size, align, kind[, n]) describing member *types* (size/align may be symbolic ints,
+    kind is the stiffness of the member's type).  -> wire items as in struct_items()"""
+    out = []
+    for i, m in enumerate(members):
+        form = m['form']
+        sz, al, kd = m['size'], m['align'], m['kind']
+        if form == 'plain':
+            out.append(dict(member=i, kind='plain', size=sz, align=al, stiff=kd, var=kd != FIXED))
+        elif form == 'optional':
+            oal = al if al > 4 else 4
+            out.append(dict(member=i, kind='optional', size=oal + sz, align=oal, stiff=FIXED, var=False))
+        elif form == 'fixed':
+            out.append(dict(member=i, kind='fixed', size=m['n'] * sz, align=al, stiff=FIXED, var=False))
+        elif form == 'dynamic':
+            out.append(dict(member=i, kind='counter', size=4, align=4, stiff=FIXED, var=False))
+            out.append(dict(member=i, kind='dynamic', size=0, align=al, stiff=DYNAMIC, var=True))
+        elif form == 'limited':
+            out.append(dict(member=i, kind='counter', size=4, align=4, stiff=FIXED, var=False))
+            out.append(dict(member=i, kind='limited', size=m['n'] * sz, align=al, stiff=FIXED, var=False))
+        elif form == 'greedy':
+            out.append(dict(member=i, kind='greedy', size=0, align=al, stiff=UNLIMITED, var=True))
+        else:
+            raise ValueError(form)
+    return out
+
+
+def abstract_struct_layout(members):
+    """documented layout of a struct of the given members, all variable parts empty.
+    -> dict(size, align, kind, offsets=[offset of each wire item], items)"""
+    items = abstract_items(members)
+    al = 1
+    kind = FIXED
+    for it in items:
+        if it['align'] > al:
+            al = it['align']
+        if it['stiff'] > kind:
+            kind = it['stiff']
+    off = 0
+    offs = []
+    for i, it in enumerate(items):
+        a = it['align']
+        if i > 0 and items[i - 1]['var']:
+            j = i
+            while True:
+                if items[j]['align'] > a:
+                    a = items[j]['align']
+                if items[j]['var'] or j == len(items) - 1:
+                    break
+                j += 1
+        off = rup_sym(off, a)
+        offs.append(off)
+        off = off + it['size']
+    return dict(size=rup_sym(off, al), align=al, kind=kind, offsets=offs, items=items)
+
+
+def abstract_union_layout(arms):
+    """arms: list of dict(size, align) of FIXED arm types"""
+    al = 4
+    mx = 0
+    for a in arms:
+        if a['align'] > al:
+            al = a['align']
+        if a['size'] > mx:
+            mx = a['size']
+    return dict(size=rup_sym(al + mx, al), align=al, kind=FIXED)
